@@ -1319,3 +1319,79 @@ def tbl17_constant_translation_is_inverse(ctx):
 def where_(x):
     from .common import where as _w
     return _w(x)
+
+
+# ------------------------------------------------------------------------------------ TBL-26 / TBL-11 clause
+def tbl26_reader_passes_stored_scalars_unchanged(ctx):
+    """The scalar fields of a data section in a partition file (`decoded_bytes`, `bytes_per_element`,
+    `is_fp32`, ...) are *facts about the stored bytes*; the reader has to hand the stored value to the
+    constructor as it is (through casts only).  A reader that adjusts it - clamps it, recomputes it from
+    the row count - turns a valid file into a section that decodes to different bytes (a packed string
+    section holds many more bytes than the column has rows)."""
+    from mirlib.astlib import find, walk
+    ctx.rule('TBL-26', 'PartitionSegment::deserialize passes the stored scalar fields of a data section to its '
+                       'constructor unchanged: each value is a capnp getter result, through casts only', floor=3)
+    fn = ctx.ast.fn_closure('PartitionSegment::deserialize', 'disk_store/partition_segment.rs')
+    lets = {}
+    for st in find(fn, 'let'):
+        pat = st.get('pat') or {}
+        if pat.get('name') and st.get('init') is not None:
+            lets[pat['name']] = st['init']
+    n = 0
+
+    def plain_getter(e, depth=0):
+        """e is `x.get_y()` wrapped in casts / `?` / unwrap / parens / a local bound to such an expression."""
+        if not isinstance(e, dict) or depth > 6:
+            return False
+        k = e.get('k')
+        if k in ('cast', 'try', 'paren', 'ref', 'unary'):
+            return plain_getter(e.get('expr'), depth + 1)
+        if k == 'mcall':
+            if e.get('method', '').startswith('get_'):
+                return True
+            if e.get('method') in ('unwrap', 'expect', 'into', 'clone', 'to_owned'):
+                return plain_getter(e.get('recv'), depth + 1)
+            return False
+        if k == 'path':
+            nm = e.get('path')
+            return nm in lets and plain_getter(lets[nm], depth + 1)
+        return False
+    for sl in find(fn, 'struct_lit'):
+        path = str(sl.get('path', ''))
+        if 'DataSection::' not in path:
+            continue
+        variant = path.split('::')[-1]
+        for f in sl.get('fields', []):
+            if f['name'] in ('data',):
+                continue          # the payload vector is rebuilt element by element (TBL-7)
+            n += 1
+            ok = plain_getter(f.get('value'))
+            ctx.check('TBL-26', 'deserialize|%s.%s|stored-value-unchanged' % (variant, f['name']), ok,
+                      'DataSection::%s { %s } receives %s' % (variant, f['name'],
+                          'the stored value (getter result through casts only)' if ok else
+                          'a value computed from the stored one (%s): a valid file decodes to a different section'
+                          % (f['value'].get('src') or f['value'].get('method') or f['value'].get('k'))),
+                      'src/disk_store/partition_segment.rs:%s' % f['value'].get('l', sl.get('l')))
+    ctx.require(n >= 3, 'TBL-26: fewer than 3 scalar fields of DataSection constructors in the reader (%d)' % n)
+
+
+def tbl11_signature_scan_sees_every_value(ctx):
+    """TBL-11 clause: the loop in `server::encode_column` that ORs the type-signature bits of a mixed
+    result column has no early exit.  The signature decides the wire representation (12 = floats with
+    NULLs is sent as a float column with the reserved NaN, not as mixed), so a scan that stops as soon as
+    two kinds have been seen mis-classifies a column whose third kind comes later."""
+    from mirlib.astlib import find, walk
+    fn = ctx.ast.fn('encode_column', 'server/mod.rs')
+    loops = []
+    for f in find(fn, 'for') + find(fn, 'while') + find(fn, 'loop'):
+        ors = [b for b in walk(f.get('body') or {}) if isinstance(b, dict) and b.get('k') == 'binary' and b.get('op') == '|=']
+        if ors:
+            loops.append(f)
+    ctx.require(loops, 'TBL-11: encode_column has no loop that accumulates the type signature')
+    for f in loops:
+        exits = [x for x in walk(f.get('body') or {}) if isinstance(x, dict) and x.get('k') in ('break', 'return')]
+        ctx.check('TBL-11', 'encode_column|signature-scan-has-no-early-exit', not exits,
+                  'the loop that ORs the type-signature bits %s' % ('visits every value' if not exits else
+                                                                    'can stop early (break / return): a kind of value that only occurs '
+                                                                    'later in the column is not part of the signature'),
+                  'src/server/mod.rs:%s' % f.get('l'))
